@@ -323,3 +323,15 @@ func init() {
 		return in.sprintf(f, args)
 	})
 }
+
+func init() {
+	// OpenTelemetry global providers: opaque non-nil handles whose methods are stubs.
+	prov := func(typ string) nativeFn {
+		return func(in *Interp, fr *frame, a []Value) Value {
+			t := in.world.namedType("go.opentelemetry.io/otel/internal/global", typ)
+			return IfaceV{T: types.NewPointer(t), V: PtrV{C: in.newFlatCell(types.Typ[types.Uint8], 1)}}
+		}
+	}
+	nativeTable["go.opentelemetry.io/otel.GetMeterProvider"] = prov("meterProvider")
+	nativeTable["go.opentelemetry.io/otel.GetTracerProvider"] = prov("tracerProvider")
+}
